@@ -2,6 +2,7 @@
 import sys, json, math
 import numpy as np
 import casadi as ca
+from harness import cas as _cas
 from harness.core import Run, run_tlc, parse_dump, main_wrap, MachineryError
 from harness.lie import rm_to_np, FnCache, rot, so3_param
 from harness import explog as E
@@ -12,7 +13,9 @@ OPS = {"log_so3", "log_se3", "log_se23", "log_se2", "exp_so3", "exp_se3_gen", "e
 
 def call(f, *args):
     r = f(*args)
-    return [np.array(x) for x in (r if isinstance(r, (list, tuple)) else [r])]
+    out = [np.array(x) for x in (r if isinstance(r, (list, tuple)) else [r])]
+    _cas.direct_probe(f, args, out)
+    return out
 
 
 def principal_vec(hp):
